@@ -49,6 +49,9 @@ type traceCall struct {
 type tracer struct {
 	calls []traceCall
 	n     int
+	// structural: results are a function of the operator and the arguments only (equal operands
+	// give equal texts), instead of a fresh token per call
+	structural bool
 }
 
 func (t *tracer) fn(op expr.Operator, alt bool) driver.RenderFN {
@@ -57,6 +60,9 @@ func (t *tracer) fn(op expr.Operator, alt bool) driver.RenderFN {
 		tok := fmt.Sprintf("⟦%d⟧", t.n)
 		if alt {
 			tok = fmt.Sprintf("⟪%d⟫", t.n)
+		}
+		if t.structural {
+			tok = op.String() + "⟦" + left + "¦" + right + "⟧"
 		}
 		t.calls = append(t.calls, traceCall{op, left, right, tok, alt})
 		return tok, nil
@@ -192,6 +198,10 @@ func (p c15) RunBatch(ctx *core.Ctx, batch int) {
 		for i, e := range c15HandBuilt() {
 			e := e
 			ctx.Case(fmt.Sprintf("hand-built expression %d: %s", i, e.String()), func() { c15Fold(ctx, fmt.Sprintf("hand-built %d", i), e, true) })
+		}
+		for _, t := range qt.RelationTrees() {
+			c15Tree(ctx, t, true)
+			ctx.Count("relation_trees", 1)
 		}
 		// every explicit amount, 0 and 1 included, on every leaf and under every operator: the
 		// ~ / ^ node must be there and must make the stock renderers fail
@@ -386,6 +396,47 @@ func c15Fold(ctx *core.Ctx, text string, e *expr.Expression, variants bool) {
 		ctx.Violate("c15:result", "Render(%q) returned %q, the root function returned %q", text, out, tr.calls[len(tr.calls)-1].tok)
 	}
 	ctx.Distinct("skeletons", fmt.Sprint(len(nodes))+text)
+	// the same fold with functions whose result depends on their arguments only: equal members
+	// of a list, equal operands of an AND … now render to equal texts, and every one of them must
+	// still be visited and handed on
+	trs := &tracer{structural: true}
+	var outS string
+	var errS error
+	if ctx.Call("Base.Render(structural)", func() { outS, errS = driver.Base{RenderFNs: trs.fullMap()}.Render(e) }) {
+		ctx.Count("structural_folds", 1)
+		if errS != nil || len(trs.calls) != len(nodes) {
+			ctx.Violate("c15:structural-call-count", "tree of %q has %d expression nodes but %d render functions were called when equal operands render to equal texts (err %v)", text, len(nodes), len(trs.calls), errS)
+			return
+		}
+		resOf := map[*expr.Expression]string{}
+		for i, n := range nodes {
+			c := trs.calls[i]
+			if c.op != n.Op {
+				ctx.Violate("c15:structural-order-or-operator", "call %d of %q: function of %v called where the fold reaches a %v node", i, text, c.op, n.Op)
+				return
+			}
+			resOf[n] = c.tok
+			if l, isList := n.Left.([]*expr.Expression); isList {
+				toks := []string{}
+				for _, x := range l {
+					toks = append(toks, resOf[x])
+				}
+				if c.left != strings.Join(toks, ", ") && c.left != strings.Join(toks, ",") {
+					ctx.Violate("c15:structural-list-argument", "LIST node of %q: argument %q is not the rendered members %q in order", text, c.left, toks)
+					return
+				}
+			}
+			if l, isExpr := n.Left.(*expr.Expression); isExpr && n.Op != expr.Literal && n.Op != expr.Wild && n.Op != expr.Regexp && !argOK(c.left, resOf[l]) {
+				ctx.Violate("c15:structural-left-argument:"+n.Op.String(), "%v node of %q: left argument %q is not the rendered left child %q", n.Op, text, c.left, resOf[l])
+				return
+			}
+			if r, isExpr := n.Right.(*expr.Expression); isExpr && !argOK(c.right, resOf[r]) {
+				ctx.Violate("c15:structural-right-argument:"+n.Op.String(), "%v node of %q: right argument %q is not the rendered right child %q", n.Op, text, c.right, resOf[r])
+				return
+			}
+		}
+		_ = outS
+	}
 	if !variants {
 		return
 	}
@@ -480,7 +531,7 @@ func (c15) Finish(res *core.Result, cov map[string]any) []string {
 	reasons := []string{}
 	cov["distinct_nontrivial"] = res.NDistinct("nontrivial")
 	cov["exhaustive"] = true
-	cov["rule"] = "depth<=2 trees over the leaf alphabet (exhaustive in the quick tier over 8 leaves; 1:8 sample over 27 leaves in the thorough tier) and random deeper trees (explicit ~/^ amounts including 0 and 1), hand-built and re-typed nodes (EQUALS over a pattern, LIKE over a plain value, …), built with the constructors, parsed, and decoded from their JSON encoding, rendered by driver.Base with a tracing function per operator; the call log is replayed against the tree (one call per expression node, bottom-up, children's results as arguments, bare or in one pair of parentheses). For every operator: its function replaced (other calls must not change), made to return the empty string (the fold must not change) and removed (error and no partial text iff the operator occurs). Queries with ~ or ^ through ToPostgres/ToParameterizedPostgres must fail. Non-trivial = distinct (removed operator, tree) where the operator occurs."
+	cov["rule"] = "depth<=2 trees over the leaf alphabet (exhaustive in the quick tier over 8 leaves; 1:8 sample over 27 leaves in the thorough tier) and random deeper trees (explicit ~/^ amounts including 0 and 1), hand-built and re-typed nodes (EQUALS over a pattern, LIKE over a plain value, …), built with the constructors, parsed, and decoded from their JSON encoding, rendered by driver.Base with a tracing function per operator; the call log is replayed against the tree, once with a fresh token per call and once with functions whose result depends only on their arguments (one call per expression node, bottom-up, children's results as arguments, bare or in one pair of parentheses). For every operator: its function replaced (other calls must not change), made to return the empty string (the fold must not change) and removed (error and no partial text iff the operator occurs). Queries with ~ or ^ through ToPostgres/ToParameterizedPostgres must fail. Non-trivial = distinct (removed operator, tree) where the operator occurs."
 	floor(res.Counters["folds"] >= 1000, &reasons, "folds %d", res.Counters["folds"])
 	floor(res.Counters["fuzzy_boost_queries"] >= 500, &reasons, "fuzzy/boost queries %d", res.Counters["fuzzy_boost_queries"])
 	for _, op := range allOps {
